@@ -55,7 +55,7 @@ func pickSize(g *hx.Gen, i int) int {
 	case i < 40:
 		return i // 0..39: every residue mod 3 several times
 	case i%23 == 0: // around the 10240-byte frame bound (about 7.6 KB of payload) and beyond
-		return []int{7680, 7636, 9000, 7635, 7638, 4096, 7637, 7634, 7590, 7640, 8000, 7632, 7400}[(i/23+int(g.Intn(2)))%13] // the bound is crossed near 7635/7636 for a v4 address
+		return []int{7680, 7400, 9000, 7638, 7642, 7645, 7636, 4096, 7639, 7590, 7641, 8000, 7632}[(i/23)%13] // for a v4 RemoteAddr the bound is crossed between 7638 and 7642; quick tier uses entries 2..6
 	case i%7 == 0:
 		return 1400 + g.Intn(102) // up to 1501
 	case i%3 == 0:
